@@ -15,6 +15,7 @@ import (
 	"runtime"
 	"sort"
 	"strconv"
+	"strings"
 	"sync"
 	"time"
 
@@ -230,9 +231,14 @@ func parent(ck *checks.Check, tier string, dl time.Duration) int {
 	nviol, unconfirmed, examined := 0, 0, 0
 	seenKey := map[string]bool{}
 	tries := map[string]int{}
+	confirmStart := time.Now()
 	for _, f := range mine {
 		if seenKey[f.Key] || tries[f.Key] >= 4 {
 			continue
+		}
+		if nviol > 0 && time.Since(confirmStart) > 4*time.Minute {
+			fmt.Printf("  (further findings were not re-examined: %d violation(s) confirmed and four minutes spent confirming)\n", nviol)
+			break
 		}
 		tries[f.Key]++ // the same case may have been recorded several times with different histories
 		if what, ok := knownKeys[f.Key]; ok {
@@ -243,16 +249,24 @@ func parent(ck *checks.Check, tier string, dl time.Duration) int {
 		// re-execute 5 times, each in a fresh process, before believing it; a finding that only
 		// shows after the calls that preceded it in its shard is replayed with that history
 		mode := ""
+		// a case of the free-running race pass is itself a freshly started process: what preceded
+		// it in the shard cannot matter, so only "alone" and "k of 20" apply
+		own := f.Case.Fam == "race"
 		switch {
 		case reproduces(self, ck, &f, nil, 5) == 5:
 			f.History = nil
-		case len(f.History) > 0 && reproduces(self, ck, &f, f.History, 5) == 5:
+		case own && strings.Contains(f.Msg, "DATA RACE"):
+			// the detector only reports races that happened: one report is proof; say how often it shows
+			k := reproduces(self, ck, &f, nil, 20)
+			mode = fmt.Sprintf("data race reported by the detector; the same configuration reports it in %d of 20 further freshly started processes", k)
+			f.History = nil
+		case !own && len(f.History) > 0 && reproduces(self, ck, &f, f.History, 5) == 5:
 			mode = fmt.Sprintf("history-dependent: reproduces only after the %d preceding calls of the same process (recorded in the replay file)", len(f.History))
 			f.NeedHistory = true
-		case reproduces(self, ck, &f, []core.Case{f.Case, f.Case, f.Case}, 5) == 5:
+		case !own && reproduces(self, ck, &f, []core.Case{f.Case, f.Case, f.Case}, 5) == 5:
 			mode = "history-dependent: reproduces when the same call is repeated in one process (replay repeats it four times)"
 			f.History, f.NeedHistory = []core.Case{f.Case, f.Case, f.Case}, true
-		case !ck.Serial && f.Seq > 0 && reproducesByPrefix(self, ck, &f):
+		case !own && !ck.Serial && f.Seq > 0 && reproducesByPrefix(self, ck, &f):
 			mode = fmt.Sprintf("history-dependent: reproduces when the %d calls that shard %d/%d executed before it are executed first (the replay re-executes that call sequence)", f.Seq-1, f.Shard, f.NShards)
 			f.History, f.NeedPrefix = nil, true
 		default:
@@ -370,6 +384,30 @@ func reproduces(self string, ck *checks.Check, f *core.Finding, history []core.C
 		return 0
 	}
 	hits := 0
+	if n != 5 {
+		// the "k of n" trials are independent fresh processes: run them ten at a time (a trial
+		// of a deadlocking call only ends at its internal timeout)
+		var mu sync.Mutex
+		var wg sync.WaitGroup
+		sem := make(chan struct{}, 10)
+		for k := 0; k < n; k++ {
+			wg.Add(1)
+			sem <- struct{}{}
+			go func() {
+				defer wg.Done()
+				defer func() { <-sem }()
+				cmd := exec.Command(self, ck.ID, "--replay", tmp.Name())
+				cmd.Env = os.Environ()
+				if ee, ok := cmd.Run().(*exec.ExitError); ok && ee.ExitCode() == 1 {
+					mu.Lock()
+					hits++
+					mu.Unlock()
+				}
+			}()
+		}
+		wg.Wait()
+		return hits
+	}
 	for k := 0; k < n; k++ {
 		cmd := exec.Command(self, ck.ID, "--replay", tmp.Name())
 		cmd.Env = os.Environ()
